@@ -59,9 +59,9 @@ PROPS = {
         "oracle_engine": {"clientcache": "sc"},
         "trusted": ["time is a parameter of the model"],
         "technique": "Lean 4 theorems (command-map key injectivity under no-comma, MapCommand touches exactly one route, resume only via the routed triple, drop on failure, invalidate/expire remove routes) + correspondence of real client handshakes over (tag, server, command) histories against model and an independent reference map",
-        "level_text": "key_injective (+ key_collision_with_comma: the excluded point), mapCommand_route, resume_only_routed, drop_on_failure, next_is_full, invalidate_removes_routes, expire_removes_routes, WF preservation: kernel-checked. Tied to the code by the clientcache engine: histories of real ClientHandshake calls over 3 tags x 2 servers x 3 commands with server restarts, broken connections, expiry, invalidation; all 18 routes compared after every step with the model and with a reference map kept by the spec rules.",
-        "level_note": "Tags/addresses/commands are assumed comma-free (the collision tag=a,addr=b vs tag='',addr='a,b' is exhibited, contrived, recorded as an observation).",
-        "assumptions": ["security tags and server addresses contain no comma"],
+        "level_text": "key_injective (for ALL tags, addresses and commands: commas inside a part are escaped; comma_triples_distinct is the pair that collided before the fix), mapCommand_route, resume_only_routed, drop_on_failure, next_is_full, invalidate_removes_routes, expire_removes_routes, WF preservation: kernel-checked. Tied to the code by the clientcache engine: histories of real ClientHandshake calls over 4 tags x 5 addresses x 3 commands with server restarts, broken connections, expiry, invalidation; all 60 routes compared after every step with the model and with a reference map kept by the spec rules.",
+        "level_note": "No assumption on the characters of tags, addresses or commands remains (the comma collision found by the theorem was confirmed on the real cache and repaired).",
+        "assumptions": [],
     },
     "C10": {
         "lean": "CedarProps.C10",
@@ -69,8 +69,8 @@ PROPS = {
         "oracle_engine": {"matrix": "hs"},
         "trusted": ["ECDH/HKDF symbolic; credentials of a method modelled as a predicate credOK"],
         "technique": "Lean 4 theorems (decision table = negotiateSecurity for all 4^4 levels by kernel evaluation, lifted to arbitrary lists; agreement of two honest machines) + exhaustive correspondence of two real endpoints over the full matrix x list shapes",
-        "level_text": "honest_matches_spec (negotiateSecurity fails / authenticates / encrypts exactly per the property's table, all 4^4 level combinations x existence of a usable method/cipher), negotiate_is_core + negotiated_method_common (lifting to arbitrary lists; unimplemented methods never count), client_view_consistent, jointLoop_success, honest_agree (same auth/enc outcome, session id, key, exchanges). Tied to the code by the matrix engine: two real endpoints, all 256 cells x 5-8 list/cipher shapes, a message each way after success, compared with honestRun and with an independently written table.",
-        "level_note": "Completeness of the bitmask retry loop (it finds a usable common method whenever one exists) is validated by the matrix engine, not proved (methods may share bits); methods exercised: CLAIMTOBE, PASSWORD, NONE.",
+        "level_text": "honest_matches_spec (negotiateSecurity fails / authenticates / encrypts exactly per the property's table, all 4^4 level combinations x existence of a usable method/cipher), negotiate_is_core + negotiated_method_common (lifting to arbitrary lists; unimplemented methods never count), client_view_consistent, jointLoop_success, retry_loop_complete + honest_auth_complete (the retry loop of two honest endpoints ends in success with a working method whenever one exists, any orders, any number of failing methods first), honest_agree (same auth/enc outcome, session id, key, exchanges). Tied to the code by the matrix engine: two real endpoints, all 256 cells x 5-8 list/cipher shapes, a message each way after success, compared with honestRun and with an independently written table.",
+        "level_note": "Completeness of the bitmask retry loop is proved (retry_loop_complete, honest_auth_complete: success whenever some offered method works) for method sets with distinct single-bit mask values; SCITOKENS and IDTOKENS share one bit, so lists containing both are covered by the matrix engine only; methods exercised on the wire: CLAIMTOBE, PASSWORD, NONE.",
         "assumptions": ["credentials: CLAIMTOBE always succeeds between the two test endpoints"],
     },
     "C12": {
